@@ -65,6 +65,9 @@ for _f in ('_TransformedFnCache.has', '_TransformedFnCache.__getitem__', 'CodeOb
 for _f in ('visit_FunctionDef', 'visit_Lambda'):
   SCRIPTS['malt.converters.functions.FunctionTransformer.' + _f] = ('bounded/rt_embed.py', ['0', 'quick'])
 
+for _f in ('__init__', '_absolute_lineno', '_absolute_col_offset'):
+  SCRIPTS['malt.pyct.origin_info.OriginResolver.' + _f] = ('bounded/rt_origin.py', ['0', 'quick'])
+
 _cache = {}
 
 
